@@ -72,9 +72,10 @@ def pyInsert {α : Type} : Nat → α → List α → List α
   | _ + 1, x, [] => [x]
   | n + 1, x, a :: l => a :: pyInsert n x l
 
-/-- `_reslist.index(obj)`: position of the first entry that *is* the object; `none` is `ValueError`.
-    (`Atom.__eq__` compares the printed text instead — property C08; atoms with pairwise different text
-    are assumed here) -/
+/-- `Shelxfile.index_of(obj)`: position of the first entry that *is* the object (`item is obj`, also behind
+    `Atom.atomid` / `Atom.index` / `Command.index`); `none` is `ValueError`. Entries that merely print the same
+    text — a second atom with a word-by-word identical line, a plain text line equal to `str(atom)` — are
+    different entries: `Item.obj` carries the identity, not the text. -/
 def indexOf [DecidableEq τ] (o : Nat) : List (Item τ) → Option Nat
   | [] => none
   | it :: r => if it = .obj o then some 0 else (indexOf o r).map (· + 1)
